@@ -8,6 +8,7 @@ import (
 	"errors"
 	"fmt"
 	"io"
+	"math"
 	"net/netip"
 	"net/url"
 	"os"
@@ -324,6 +325,13 @@ func makeItem(tag string, r *vrng, invalid string) *api.Item {
 		it.Code = "tmp-" + tag
 	case "multipleOf":
 		it.Price.SetTo(0.3)
+	case "multnear":
+		// one unit in the last place away from a multiple: 2.5000000000000004 is not a multiple of 0.25
+		m := float64(1+r.intn(4000)) * 0.25
+		it.Price.SetTo(math.Nextafter(m, m+1))
+		if r.coin() {
+			it.Price.SetTo(math.Nextafter(m, m-1))
+		}
 	case "maxLength":
 		it.Name = "n-" + tag + strings.Repeat("x", 220)
 	case "enum":
